@@ -80,6 +80,44 @@ var (
 		HashKey:   func(v interface{}) string { return strconv.Itoa(v.(*CapPayload).N) },
 		GoString:  func(v interface{}) string { return fmt.Sprintf("capB(%d)", v.(*CapPayload).N) },
 	})
+	// CapC converts: to string (fails for odd payloads) and to number (total),
+	// and from number (fails outside 0..7). Conversions involving a capsule
+	// type's own operations are offered in unsafe mode only.
+	CapC = cty.CapsuleWithOps("capC", reflect.TypeOf(CapPayload{}), &cty.CapsuleOps{
+		RawEquals: func(a, b interface{}) bool { return a.(*CapPayload).N == b.(*CapPayload).N },
+		HashKey:   func(v interface{}) string { return strconv.Itoa(v.(*CapPayload).N) },
+		GoString:  func(v interface{}) string { return fmt.Sprintf("capC(%d)", v.(*CapPayload).N) },
+		ConversionFrom: func(dst cty.Type) func(interface{}, cty.Path) (cty.Value, error) {
+			switch {
+			case dst == cty.String:
+				return func(raw interface{}, path cty.Path) (cty.Value, error) {
+					n := raw.(*CapPayload).N
+					if n%2 != 0 {
+						return cty.NilVal, path.NewErrorf("capC(%d) has no string form", n)
+					}
+					return cty.StringVal("c" + strconv.Itoa(n)), nil
+				}
+			case dst == cty.Number:
+				return func(raw interface{}, path cty.Path) (cty.Value, error) {
+					return cty.NumberIntVal(int64(raw.(*CapPayload).N)), nil
+				}
+			}
+			return nil
+		},
+		ConversionTo: func(src cty.Type) func(cty.Value, cty.Path) (interface{}, error) {
+			if src != cty.Number {
+				return nil
+			}
+			return func(v cty.Value, path cty.Path) (interface{}, error) {
+				f := v.AsBigFloat()
+				i, acc := f.Int64()
+				if acc != big.Exact || i < 0 || i > 3 {
+					return nil, path.NewErrorf("no capC for that number")
+				}
+				return capPool[i], nil
+			}
+		},
+	})
 	capPool [8]*CapPayload
 )
 
@@ -137,6 +175,8 @@ func (t T) Cty() cty.Type {
 			return CapB
 		case "A2":
 			return CapA2
+		case "C":
+			return CapC
 		}
 		return CapA
 	}
@@ -424,6 +464,9 @@ func FromCty(ty cty.Type) T {
 		}
 		if ty == CapA2 {
 			return CapsuleT("A2")
+		}
+		if ty == CapC {
+			return CapsuleT("C")
 		}
 		return CapsuleT("?" + ty.FriendlyName())
 	}
